@@ -2,7 +2,8 @@
 from z3 import BitVec, Bool
 from .vm import BV, Struct, Enum, Seq, Bits, Ref, Cell
 
-PRIM = {'Bool': None, 'Int16': ('i16', 16), 'Int32': ('i32', 32), 'Int64': ('i64', 64)}
+PRIM = {'Bool': None, 'Int16': ('i16', 16), 'Int32': ('i32', 32), 'Int64': ('i64', 64), 'Date': ('i32', 32)}
+WRAPPED = {'Date'}     # newtype payloads: PrimitiveArray<Date> holds Date(i32)
 
 
 def sym_array(name, variant, n):
@@ -17,7 +18,7 @@ def sym_array(name, variant, n):
         else:
             ty, w = PRIM[variant]
             r = BitVec('%s_raw%d' % (name, i), w)
-            data.append(BV(r, True))
+            data.append(Struct(variant, [BV(r, True)]) if variant in WRAPPED else BV(r, True))
         valid.append(v)
         rows.append((r, v))
     pa = Struct('PrimitiveArray', [Bits(valid), Seq(data)])
@@ -33,5 +34,7 @@ def unpack_array(vm, v):
     rows = []
     for d, b in zip(data.items, valid.bits):
         d = vm.deref_value(d)
+        if isinstance(d, Struct) and d.name in WRAPPED:
+            d = vm.deref_value(d.fields[0])
         rows.append((d.v if isinstance(d, BV) else d, b))
     return v.variant, rows
